@@ -714,6 +714,17 @@ def it_fold(i, it, a, p, h, t):
     return acc
 
 
+def it_reduce(i, it, a, p, h, t):
+    acc = None
+    first = True
+    for x in it:
+        if first:
+            acc, first = x, False
+        else:
+            acc = call(i, a[0], acc, x)
+    return mk_none() if first else Some(acc)
+
+
 def it_for_each(i, it, a, p, h, t):
     for x in it:
         call(i, a[0], x)
@@ -884,7 +895,7 @@ B.ITER_METHODS = {
     'enumerate': it_enumerate, 'zip': it_zip, 'chain': it_chain, 'skip': it_skip, 'take': it_take,
     'take_while': it_take_while, 'skip_while': it_skip_while, 'step_by': it_step_by, 'rev': it_rev,
     'collect': it_collect, 'any': it_any, 'all': it_all, 'find': it_find, 'find_map': it_find_map,
-    'position': it_position, 'count': it_count, 'last': it_last, 'nth': it_nth, 'fold': it_fold,
+    'position': it_position, 'count': it_count, 'last': it_last, 'nth': it_nth, 'fold': it_fold, 'reduce': it_reduce,
     'for_each': it_for_each, 'sum': it_sum, 'max': it_max_min('max'), 'min': it_max_min('min'),
     'max_by_key': it_max_min_by_key('max'), 'min_by_key': it_max_min_by_key('min'),
     'max_by': it_max_min_by('max'), 'min_by': it_max_min_by('min'),
@@ -995,6 +1006,22 @@ B.MAP_METHODS = {
 }
 
 
+def _empty_like(v):
+    if isinstance(v, HSet):
+        return HSet([], v.ordered)
+    if isinstance(v, Vec):
+        return Vec([])
+    if isinstance(v, HMap):
+        return HMap([], v.ordered)
+    if isinstance(v, Str):
+        return Str('')
+    if isinstance(v, bool):
+        return False
+    if isinstance(v, int):
+        return type(v)(0)
+    raise Inconclusive('entry().or_default() without type context')
+
+
 class EntryModel:
     @staticmethod
     def call_method(i, e, name, a, p, h, t, ctx):
@@ -1008,9 +1035,15 @@ class EntryModel:
                 elif name == 'or_insert_with_key':
                     x = call(i, a[0], k)
                 else:
-                    if h is None:
+                    vt = getattr(m, 'vty', None)
+                    if h is not None:
+                        x = i.default_of_type(B.Interp_strip_ref(h))
+                    elif vt is not None:
+                        x = i.default_of_type(vt)
+                    elif m.items:
+                        x = _empty_like(deref(m.items[0][1]))
+                    else:
                         raise Inconclusive('entry().or_default() without type context')
-                    x = i.default_of_type(B.Interp_strip_ref(h))
                 m.items.append([k, x])
                 idx = len(m.items) - 1
                 e.f['idx'] = idx
